@@ -57,6 +57,8 @@ def gen(seed, tier="quick"):
         "psi_sp0": knobs.choice([0.0, 3.1, -3.1, 3.14, -3.14, knobs.uniform(-math.pi, math.pi)]),
         "at_w": [knobs.uniform(-6, 6) for _ in range(3)] if (randomise and knobs.random() < 0.3) else [0.0, 0.0, 0.0],
         "thrust_trim": knobs.choice([15.0, 25.0, 30.0, 45.0]) if (randomise and knobs.random() < 0.5) else None,
+        # controller-side airframe constants, set before the functions are derived (a lighter / heavier airframe)
+        "m_ctrl": knobs.choice([1.0, 1.5, 3.0]) if (randomise and knobs.random() < 0.3) else None,
     }
     tilt = ic.uniform(0, math.radians(40))
     az = ic.uniform(-math.pi, math.pi)
@@ -153,20 +155,24 @@ def run(scn):
               "sign_flip_checked": 0, "shadow_zero_checks": 0, "reset_checked": 0, "plant_failed": 0, "ticks": 0, "not_judged_nonfinite": 0,
               "calls_attitude_control": 0, "calls_so3_attitude_control": 0, "calls_se23_error": 0, "calls_position_control": 0,
               "calls_se23_position_control": 0, "calls_input_velocity": 0, "calls_input_auto_level": 0, "calls_input_acro": 0,
-              "calls_attitude_rate_control": 0, "long_way_round_commanded": 0, "setpoint_quat_not_unit": 0, "near_pi_not_judged": 0, "non_unit_quaternion_judged": 0, "integrator_memory_changed_by_caller": 0, "setpoint_memory_changed_by_caller": 0}
+              "calls_attitude_rate_control": 0, "long_way_round_commanded": 0, "setpoint_quat_not_unit": 0, "near_pi_not_judged": 0, "non_unit_quaternion_judged": 0, "integrator_memory_changed_by_caller": 0, "setpoint_memory_changed_by_caller": 0, "shadow_half_turn_checks": 0}
     faults = {}
     mem = {"rate_calls": 0, "pos_calls": 0, "prev_i1": None, "prev_zi2": None, "prev_psi": None, "prev_pwsp": None, "force_reset": 0}
 
     def fault(k, n=1):
         faults[k] = faults.get(k, 0) + n
 
-    saved = (rdd2.z_integral_max, rdd2_loglinear.z_integral_max)
+    saved = (rdd2.z_integral_max, rdd2_loglinear.z_integral_max, rdd2.m, rdd2_loglinear.m)
     rdd2.z_integral_max = kn["z_integral_max"]
     rdd2_loglinear.z_integral_max = kn["z_integral_max"]
+    m_ctrl = {"rdd2": rdd2.m, "loglinear": rdd2_loglinear.m}
+    if kn.get("m_ctrl"):
+        rdd2.m = rdd2_loglinear.m = float(kn["m_ctrl"])
+        m_ctrl = {"rdd2": rdd2.m, "loglinear": rdd2_loglinear.m}
     try:
         env, node, buf = make_node(scn, rec, scn.get("budget", 100000))
     finally:
-        rdd2.z_integral_max, rdd2_loglinear.z_integral_max = saved
+        rdd2.z_integral_max, rdd2_loglinear.z_integral_max, rdd2.m, rdd2_loglinear.m = saved
     if kn["z_integral_max"] != 0.0 or kn["i_max"] != [0.0, 0.0, 0.0]:
         fault("knob_randomisation")
 
@@ -249,7 +255,7 @@ def run(scn):
 
     def check_force(site, mod, thrust_trim, z_i, nT, q_r, z_i_2):
         zmax = kn["z_integral_max"]
-        pmax = 0.3 * mod.m * mod.g
+        pmax = 0.3 * m_ctrl["rdd2" if mod is rdd2 else "loglinear"] * mod.g  # the mass the functions were derived with
         c = thrust_trim + mod.ki_z * z_i
         if not finite(np.array([thrust_trim, z_i, nT, z_i_2]), q_r):
             return
@@ -372,6 +378,23 @@ def run(scn):
                           same_sign=not label.startswith("-"))
                 return
 
+    HALF_TURNS = [([1.0, 0, 0, 0], [0.0, 1, 0, 0]), ([1.0, 0, 0, 0], [0.0, 0, 1, 0]), ([1.0, 0, 0, 0], [0.0, 0, 0, 1]),
+                  ([0.0, 0, 0, 1], [1.0, 0, 0, 0]), ([math.sqrt(0.5), 0, 0, math.sqrt(0.5)], [math.sqrt(0.5), 0, 0, -math.sqrt(0.5)]),
+                  ([0.0, 1, 0, 0], [0.0, 0, 1, 0])]
+
+    def shadow_half_turn(name, f, kp):
+        """Hand-written attitudes exactly half a turn apart (the scalar part of the error quaternion is exactly
+        0.0): not the same rotation, so the command must not vanish, and it must be a rotation by pi."""
+        probes["shadow_half_turn_checks"] += 1
+        for q, qr in HALF_TURNS:
+            om = vec(f(kp, np.array(q), np.array(qr)))
+            if not np.all(np.isfinite(om)) or not (np.linalg.norm(om) > 0):
+                violation("zero_command_at_nonzero_error", name, "%s(kp, q=%s, q_r=%s) = %s although the two attitudes are half a turn apart" % (name, q, qr, om.tolist()))
+                return
+            if name == "attitude_control" and abs(float(np.linalg.norm(om / kp)) - math.pi) > 1e-6:
+                violation("commanded_rotation_misses_reference", name, "%s(kp, q=%s, q_r=%s): commanded rotation angle %r, the attitudes are pi apart" % (name, q, qr, float(np.linalg.norm(om / kp))))
+                return
+
     def judge_attitude_law(name, kp, q, q_r, om, jacobian):
         kp = vec(kp)
         if not finite(q, q_r, kp) or abs(np.linalg.norm(q) - 1) > 0.2 or abs(np.linalg.norm(q_r) - 1) > 0.2:
@@ -420,6 +443,7 @@ def run(scn):
         judge_attitude_law("attitude_control", kp, q, q_r, om, False)
         if probes["calls_attitude_control"] % 25 == 1 and finite(q) and abs(np.linalg.norm(q) - 1) < 0.2:
             shadow_zero("attitude_control", real["attitude_control"], kp, q)
+            shadow_half_turn("attitude_control", real["attitude_control"], kp)
 
     def mon_so3att(args, out):
         probes["calls_so3_attitude_control"] += 1
@@ -431,6 +455,7 @@ def run(scn):
         judge_attitude_law("so3_attitude_control", kp, q, q_r, om, True)
         if probes["calls_so3_attitude_control"] % 25 == 1 and finite(q) and abs(np.linalg.norm(q) - 1) < 0.2:
             shadow_zero("so3_attitude_control", real["so3_attitude_control"], kp, q)
+            shadow_half_turn("so3_attitude_control", real["so3_attitude_control"], kp)
 
     def mon_se23err(args, out):
         probes["calls_se23_error"] += 1
@@ -623,7 +648,7 @@ def simplify(scn):
             out.append(dict(scn, n_ticks=n))
             break
     shipped = {"kp_rate": [0.3, 0.3, 0.05], "ki_rate": [0.0, 0.0, 0.0], "kd_rate": [0.1, 0.1, 0.0], "f_cut": 10.0, "i_max": [0.0, 0.0, 0.0],
-               "kp_att": [5.0, 5.0, 2.0], "z_integral_max": 0.0, "psi_sp0": 0.0, "at_w": [0.0, 0.0, 0.0], "thrust_trim": None}
+               "kp_att": [5.0, 5.0, 2.0], "z_integral_max": 0.0, "psi_sp0": 0.0, "at_w": [0.0, 0.0, 0.0], "thrust_trim": None, "m_ctrl": None}
     for k, v in shipped.items():
         if scn["knobs"].get(k, v) != v:
             kn = dict(scn["knobs"])
